@@ -328,6 +328,20 @@ func ruleCancelExactID(c *chk.Ctx) {
 // (The stop function cancels only the entries it still finds in the table.)
 func ruleCallbackTakeCompletes(c *chk.Ctx) {
 	n := 0
+	// the table is never emptied wholesale outside the stop function: an entry's watcher (or
+	// the reply filter) finds it, removes it and completes the caller — an entry that is gone
+	// when the watcher looks is taken for one that was already completed
+	stop := stopFunc(c, "server")
+	for _, f := range pkgFuncs(c, c.M.Pkg) {
+		ir.Instrs(f, func(ins ssa.Instruction) {
+			call, ok := isClearOn(ins, c.M.SCall)
+			if !ok {
+				return
+			}
+			inStop := stop != nil && (f == stop || c.P.InExt(stop, f))
+			c.Check(inStop, "TOKEN.take", f, "callback table cleared only by the stop function", call.Pos(), "the wholesale clear sits in the stop function", "the table of pending callbacks is emptied outside the stop function: the watcher of a callback that is still pending would find no entry and deliver nothing, so that Callback never returns")
+		})
+	}
 	for _, f := range pkgFuncs(c, c.M.Pkg) {
 		ir.Instrs(f, func(ins ssa.Instruction) {
 			del, ok := isDeleteOn(ins, c.M.SCall)
